@@ -486,7 +486,7 @@ class ValueWrapper(Term):
             return format_alias_sql(sql, self.alias, quote_char=quote_char, **kwargs)
 
         # Don't stringify numbers when using a parameter
-        if isinstance(self.value, numbers.Number):
+        if isinstance(self.value, numbers.Number) or self.value is None:
             value_sql = self.value
         else:
             value_sql = self.get_value_sql(quote_char=quote_char, **kwargs)
